@@ -151,7 +151,7 @@ class Calls(DataModels):
             return self.call_spec(I, func, args, kw, node)
         key = self.func_key(func)
         if key is not None:
-            if key == ('elftools/common/utils.py', 'struct_parse'):
+            if key == ('elftools/common/utils.py', 'struct_parse') and not (key in self.registry and self.registry[key].inline):
                 return self.struct_parse(I, args, kw, node)
             if key == ('elftools/construct/macros.py', 'Array') and len(args) == 2 and isinstance(args[1], StructRef):
                 r = StructRef('Array', None)
@@ -439,6 +439,8 @@ class Calls(DataModels):
         if init is not None:
             key = self.func_key(init)
         obj = SObj(name, {}, ctor_args=list(args), ctor_kw=dict(kw))
+        if name in ('ELFStructs', 'DWARFStructs', 'EHABIStructs'):
+            obj.is_structs = True          # its struct attributes are reached abstractly (K1 layouts, K2 obligations)
         if key is not None and key in self.registry:
             self.call_repo(I, key, init, [obj] + list(args), kw, node)
             return obj
